@@ -265,11 +265,22 @@ fn extract<'tcx>(cx: &Cx<'tcx>, crate_name: &str, lines: &mut Vec<String>) {
             hir::ItemKind::Trait { .. } => {
                 let mut items = vec![];
                 for ai in tcx.associated_items(did).in_definition_order() {
+                    let (inputs, output) = if matches!(ai.kind, ty::AssocKind::Fn { .. }) {
+                        let sig = tcx.fn_sig(ai.def_id).instantiate_identity().skip_norm_wip().skip_binder();
+                        (
+                            J::Arr(sig.inputs().iter().map(|t| cx.ty(*t)).collect()),
+                            cx.ty(sig.output()),
+                        )
+                    } else {
+                        (J::Null, J::Null)
+                    };
                     items.push(obj! {
                         "path": J::s(cx.path(ai.def_id)),
                         "name": J::s(ai.name().to_string()),
                         "kind": J::s(format!("{:?}", ai.kind)),
                         "has_default": J::Bool(ai.defaultness(tcx).has_value()),
+                        "inputs": inputs,
+                        "output": output,
                     });
                 }
                 push(
